@@ -9,6 +9,8 @@
 From Coq Require Import List NArith Bool.
 From Coq Require Import Permutation Sorted.
 From Wesh Require Import Model.C15_Queue Proofs.C15_Queue Proofs.C15_Heap.
+From Coq Require String.
+From Wesh Require Gen.Queue GenFacts.QueueFacts.
 Import ListNotations.
 Open Scope N_scope.
 
@@ -102,6 +104,33 @@ Theorem C15_pop_then_wait_needs_the_signal :
     c_pc s = CParked /\ q s = [2] /\ mtx s = Free /\ cancelled s = false.
 Proof. exact pop_then_wait_needs_the_signal. Qed.
 
+(* several tasks on ONE priority queue (the registrar drains it while the consumer loop parks messages
+   again): any number of tasks, any operations, EVERY schedule - the queue stays a heap, what was added is
+   exactly what is still queued plus what was handed out (nothing lost, nothing twice), and every Next /
+   NextAll handed its items out in ascending counter order.  An operation is one atomic step because every
+   method is one critical section from its first to its last statement in the CURRENT source (generated) *)
+Theorem C15_priority_queue_any_schedule :
+  forall progs sched,
+    let st := pq_conc (mkPQ [] [] []) progs sched in
+    heap_ok (pq_items st) /\
+    Permutation (pq_added st) (pq_items st ++ concat (pq_handed st)) /\
+    Forall (StronglySorted (fun a b => (a <= b)%N)) (pq_handed st).
+Proof. intros progs sched. exact (pq_conc_from_empty progs sched). Qed.
+
+Module PQFacts.
+Import String.
+Theorem C15_priority_queue_methods_atomic :
+  (Gen.Queue.pq_critical = [("Add", "whole"); ("NextAll", "whole"); ("Next", "whole"); ("Size", "whole")] /\
+   Gen.Queue.skel_pq_nextall = ["lock pq.muMessages"; "defer unlock pq.muMessages"])%string.
+Proof. exact GenFacts.QueueFacts.pq_methods_are_critical_sections. Qed.
+End PQFacts.
+Export PQFacts.
+
+Example C15_priority_queue_nonvacuous :
+  let st := pq_conc (mkPQ [] [] []) [[PAdd 3; PAdd 1; PNextAll]; [PAdd 2; PAdd 0; PNext]] [0; 0; 1; 0; 1; 1]%nat in
+  pq_handed st = [[1; 2; 3]; [0]] /\ pq_items st = [] /\ pq_added st = [3; 1; 2; 0].
+Proof. vm_compute. repeat split. Qed.
+
 Print Assumptions C15_pop_then_wait.
 Print Assumptions C15_pop_then_wait_needs_the_signal.
 Print Assumptions C15_no_lost_wakeup.
@@ -114,3 +143,5 @@ Print Assumptions C15_pop_returns_minimum.
 Print Assumptions C15_pop_succeeds_on_nonempty.
 Print Assumptions C15_drain_sorted.
 Print Assumptions C15_operations_keep_heap.
+Print Assumptions C15_priority_queue_any_schedule.
+Print Assumptions C15_priority_queue_methods_atomic.
